@@ -25,12 +25,14 @@ Open == {i \in Idx : att[i] \in {"connecting", "connected"}}
 Pending == {i \in Idx : att[i] = "connecting"}
 Stopped == scope \/ ext
 
-\* the loop starts the next attempt (previous done, or stagger delay elapsed): socket created, connect in progress
-Start == /\ result = "none" /\ ~Stopped /\ started < n
+\* the loop starts the next attempt (previous done, or stagger delay elapsed): socket created, connect in progress.
+\* An external cancellation that was requested but not delivered yet does not prevent it (the child task may already
+\* have been spawned); a won race does (children that did not start never run).
+Start == /\ result = "none" /\ ~scope /\ started < n
          /\ started' = started + 1 /\ att' = [att EXCEPT ![started + 1] = "connecting"]
          /\ UNCHANGED <<n, winner, scope, ext, errors, result>>
 \* ... or the bind on the requested local address fails: socket created and closed at once, error recorded
-StartBindFail == /\ result = "none" /\ ~Stopped /\ started < n
+StartBindFail == /\ result = "none" /\ ~scope /\ started < n
                  /\ started' = started + 1 /\ att' = [att EXCEPT ![started + 1] = "closed"] /\ errors' = errors + 1
                  /\ UNCHANGED <<n, winner, scope, ext, result>>
 \* the connect of attempt i completes (the attempt's task runs before any pending cancellation reaches it)
@@ -50,11 +52,15 @@ ExtCancel == /\ ~ext /\ result = "none" /\ ext' = TRUE
              /\ UNCHANGED <<n, att, started, winner, scope, errors, result>>
 \* every child is finished: the call returns / raises
 Return == /\ result = "none" /\ Pending = {} /\ (Stopped \/ started = n)
-          /\ IF ext
-             THEN /\ result' = "cancelled"
-                  /\ att' = [i \in 1..n |-> IF att[i] = "connected" THEN "closed" ELSE att[i]]     \* the winner is closed too
-             ELSE IF winner # 0 THEN result' = "sock" /\ UNCHANGED att
-             ELSE result' = "error" /\ UNCHANGED att
+          /\ \/ /\ ext /\ result' = "cancelled"
+                   /\ att' = [i \in 1..n |-> IF att[i] = "connected" THEN "closed" ELSE att[i]]     \* the winner is closed too
+                \* a cancellation request that arrives while the (already cancelled) race scope is unwinding may be absorbed
+                \* by that scope: the call then returns its winner normally.  Nothing leaks; whether the request may be
+                \* lost is the cancel scopes' business (property C13), not this one's.
+                \/ /\ winner # 0 /\ result' = "sock" /\ UNCHANGED att
+                \/ /\ ~ext /\ winner = 0 /\ result' = "error" /\ UNCHANGED att
+                \* an external cancellation delivered while every attempt has already failed may likewise surface as the error group
+                \/ /\ ext /\ winner = 0 /\ started = n /\ errors = n /\ result' = "error" /\ UNCHANGED att
           /\ UNCHANGED <<n, started, winner, scope, ext, errors>>
 Next == Start \/ StartBindFail \/ (\E i \in Idx : FinishOk(i) \/ FinishErr(i) \/ CancelDelivered(i)) \/ ExtCancel \/ Return
         \/ (result # "none" /\ UNCHANGED vars)
